@@ -27,7 +27,7 @@ Static only: ASTs of the repository sources; nothing is imported or run.
 """
 import ast
 
-from ..core import Rule, AnalysisError, node_src
+from ..core import Rule, AnalysisError
 from ..engine.pyindex import walk_no_nested
 
 UNK = object()
@@ -317,9 +317,10 @@ class ScannerModel:
 class Region:
     """One discard region: generator function with a held-error list, a handler around its yield and a rewind of its scanner parameter."""
 
-    def __init__(self, label, fn, rel, scanner_param, held, handlers, release, active_facts):
+    def __init__(self, label, fn, rel, scanner_param, held, handlers, release, active_facts, is_call_to):
         self.label, self.fn, self.rel, self.scanner_param, self.held = label, fn, rel, scanner_param, held
         self.handlers, self.release, self.active_facts = handlers, release, active_facts
+        self.is_call_to = is_call_to     # (call, 'hold' | 'release' | 'report') -> bool, names resolved in the region's own module
 
 
 def find_regions(functions, is_call_to, exc_names):
@@ -368,7 +369,7 @@ def find_regions(functions, is_call_to, exc_names):
                         facts[t.attr] = 'notnone'
                     elif isinstance(v, ast.Constant) and v.value is None:
                         facts[t.attr] = 'none'
-        out.append(Region(label, fn, rel, sp, held, handlers, release, facts))
+        out.append(Region(label, fn, rel, sp, held, handlers, release, facts, is_call_to))
     return out
 
 
@@ -439,23 +440,21 @@ def eval_handler(region, h, member_truth):
 
 
 def forwards_held(region, is_call_to, member_truth):
-    """Is every held error with the given membership re-reported after the pop?  True / False"""
+    """Is every held error with the given membership handed to the report function again after the pop (`for x in <held>: [if COND(x):] report(x)`)?"""
     rel_line = max(c.lineno for c in region.release)
     for n in walk_no_nested(region.fn):
-        if isinstance(n, ast.For) and isinstance(n.iter, ast.Name) and n.iter.id == region.held and isinstance(n.target, ast.Name) and n.lineno > rel_line:
-            var = n.target.id
-            fake = ast.ExceptHandler(type=None, name=var, body=[])
-            for st in n.body:
-                for c in ast.walk(st):
-                    if isinstance(c, ast.Call) and is_call_to(c, 'report') and c.args and isinstance(c.args[0], ast.Name) and c.args[0].id == var:
-                        # condition under which the call is reached
-                        if st is not None and isinstance(st, ast.If):
-                            fake.name = var
-                            t = _if_truth(region, st, var, member_truth)
-                            if t is True:
-                                return True
-                        elif isinstance(st, ast.Expr):
-                            return True
+        if not (isinstance(n, ast.For) and isinstance(n.iter, ast.Name) and n.iter.id == region.held and isinstance(n.target, ast.Name) and n.lineno > rel_line):
+            continue
+        var = n.target.id
+        for st in n.body:
+            reports = any(isinstance(c, ast.Call) and is_call_to(c, 'report') and c.args and isinstance(c.args[0], ast.Name) and c.args[0].id == var for c in ast.walk(st))
+            if not reports:
+                continue
+            if isinstance(st, ast.Expr):
+                return True
+            if isinstance(st, ast.If) and _if_truth(region, st, var, member_truth) is True and \
+                    any(isinstance(c, ast.Call) and is_call_to(c, 'report') for b in st.body for c in ast.walk(b)):
+                return True
     return False
 
 
@@ -472,7 +471,7 @@ def _if_truth(region, st, var, member_truth):
     return ev3(st.test, atom)
 
 
-def tokerr_findings(sm, regions, is_call_to, writers_of, scanner_label):
+def tokerr_findings(sm, regions, writers_of, scanner_label):
     """-> (instances [(key, sample)], findings [(key, line_node, msg, rel_hint)], infos)"""
     inst, finds, infos = [], [], []
     site_txt = ', '.join(sorted({'%s -> %s' % (m, r) for m, r, c in sm.sites}))
@@ -499,7 +498,7 @@ def tokerr_findings(sm, regions, is_call_to, writers_of, scanner_label):
                 recorded[(m, rname, id(call))] = rec
                 inst.append((key + ':record', '%s calls %s: error %s in self.%s' % (m, rname, 'recorded' if rec else 'NOT recorded', W)))
                 if not rec:
-                    finds.append((key + ':unrecorded', call, reg.rel_scanner if hasattr(reg, 'rel_scanner') else None,
+                    finds.append((key + ':unrecorded', call, None,
                                   'tokenizer error site %s.%s reports through %s(), which does not add the error object to self.%s before it can raise: %s tests '
                                   '`%s in %s.%s` to tell tokenizer errors from failed parse attempts, so this error is swallowed with the attempt although its text '
                                   'is consumed and never tokenized again - an invalid source compiles without any message (e.g. an unclosed string inside `with (...)`)'
@@ -521,7 +520,7 @@ def tokerr_findings(sm, regions, is_call_to, writers_of, scanner_label):
             par = eval_handler(reg, h, truth_par)
             if tok is None or par is None:
                 raise AnalysisError('%s: handler around the yield is not modelled (%s)' % (reg.label, _u(h)[:120]))
-            fw = forwards_held(reg, is_call_to, truth_tok)
+            fw = forwards_held(reg, reg.is_call_to, truth_tok)
             inst.append((hk + ':tokenizer', '%s: tokenizer error -> %s%s' % (reg.label, tok, ', held list re-reported' if fw else '')))
             inst.append((hk + ':parser', '%s: parser error -> %s' % (reg.label, par)))
             if tok == 'swallow' and (W is None or all_rec):
@@ -648,7 +647,7 @@ def _real_tokerr(ctx):
                         ok = True
                     out.append((where, n, kind, ok))
         return out
-    return sm, regions, (lambda c, k: False), writers_of, '%s.%s' % (sc.short, S.name), sc, missing, kinds, resolves_to
+    return sm, regions, writers_of, '%s.%s' % (sc.short, S.name), sc, missing
 
 
 _TOK_BAD = '''
@@ -697,29 +696,21 @@ def _mini_tokerr(handler_body):
 
     def writers_of(W, sm_):
         return []
-    return tokerr_findings(sm, regions, is_call_to, writers_of, 'Sc')
+    return tokerr_findings(sm, regions, writers_of, 'Sc')
 
 
-def rule_TOKERR(ctx, floor=8):
+def rule_TOKERR(ctx, floor=7):
     r = Rule('C43-TOKERR', 'errors reported by lexer actions are not discarded by a tentative scan: the region that swallows compile errors and drops its held list lets '
                            'tokenizer errors escape (discriminator list: every tokenizer error site records into it, sole writers), still swallows parse errors, and no '
                            'tokenizer error stays non-fatal inside it', floor)
-    sm, regions, _unused, writers_of, label, sc, missing, kinds, resolves_to = _real_tokerr(ctx)
+    sm, regions, writers_of, label, sc, missing = _real_tokerr(ctx)
     if not regions:
         raise AnalysisError('no discard region found (a generator that holds errors, releases them with ignore=True and puts tokens back): tentatively_scan moved?')
     if len(sm.sites) < 5:
         raise AnalysisError('only %d tokenizer error sites found in %s' % (len(sm.sites), label))
     for a in missing:
         r.info('Lexicon action %r is not a method of %s' % (a, label))
-    ix = ctx.index
-
-    def is_call_to(c, k):
-        # the regions live in Scanning / Parsing; resolve through the module that defines the region
-        for m in (sc,):
-            if isinstance(c.func, (ast.Name, ast.Attribute)) and resolves_to(c, kinds[k], m):
-                return True
-        return False
-    inst, finds, infos = tokerr_findings(sm, regions, is_call_to, writers_of, label)
+    inst, finds, infos = tokerr_findings(sm, regions, writers_of, label)
     for key, sample in inst:
         r.inst(key, sample=sample)
     for key, node, rel, msg in finds:
@@ -1218,7 +1209,6 @@ class TypeEval:
                 return
             if isinstance(e, ast.Attribute) and isinstance(e.ctx, ast.Load):
                 base = e.value
-                is_call = False
                 if isinstance(base, ast.Name) and base.id == selfname:
                     pass
                 else:
@@ -1306,7 +1296,6 @@ class TypeEval:
         # two passes so that loop-carried bindings are seen
         block(fn.body, set())
         del off[:]
-        saved = dict(self.memo)
         block(fn.body, set())
         seen, res = set(), []
         for o in off:
@@ -1489,7 +1478,7 @@ def deferred_findings(ix, root, flow, found, unhandled):
     return inst, finds, infos
 
 
-def rule_DEFERRED(ctx, floor=10):
+def rule_DEFERRED(ctx, floor=17):
     r = Rule('C43-DEFERRED', 'placeholder nodes the parser uses to defer a syntax error (ErrorNode): the handler that turns them into the error stops the phase by raising (no None left in a '
                              'scalar slot, no placeholder left in the tree), every slot the parser can put one into is a visited child slot, and the eliminating transform calls no node method '
                              'that touches a possible placeholder before it visited the children', floor)
